@@ -202,6 +202,12 @@ func (w *World) Explore(spec RunSpec, known map[string]bool, workers int, seed i
 						}
 					}()
 				}
+				if inconcl != "" && os.Getenv("VERIF_DEBUG_INCONCL") != "" {
+					func() {
+						defer func() { recover() }()
+						fmt.Fprintf(os.Stderr, "DEBUG inconclusive %q trace=%v\n", inconcl, x.modelTrace(""))
+					}()
+				}
 				sol.send("(pop)")
 				sol.rec = false
 				mu.Lock()
